@@ -176,7 +176,7 @@ def RandErr(seed, profile, dim, a=None, b=None):
                 if p == "altdim":
                     k = getattr(refine_object, "this_dim", 0)
                     return rng.random() if k == self.step % self.dim else 0.0
-                if p == "hotspot":
+                if p in ("hotspot", "fronts"):
                     k = getattr(refine_object, "this_dim", None)
                     if k is None:  # box shaped objects
                         s = 0.0
@@ -185,8 +185,8 @@ def RandErr(seed, profile, dim, a=None, b=None):
                             t = self.a[j] + self.hot[j] * (self.b[j] - self.a[j])
                             s += 0.0 if lo <= t <= hi else min(abs(t - lo), abs(t - hi)) / (self.b[j] - self.a[j])
                         return 1.0 / (1e-3 + s)
-                    if k not in self.hot_dims:
-                        return 0.0
+                    if p == "hotspot" and k not in self.hot_dims:
+                        return 0.0     # "fronts": every dimension has its own steep front -> deep local refinement in all of them
                     t = self.a[k] + self.hot[k] * (self.b[k] - self.a[k])
                     lo, hi = refine_object.start, refine_object.end
                     dist = 0.0 if lo <= t <= hi else min(abs(t - lo), abs(t - hi)) / (self.b[k] - self.a[k])
